@@ -30,7 +30,7 @@ RULE = (
     "(items deleted inside every story).  Non-trivial = >= 2 sources/carried elements, or a blank "
     "target, or compact XML.")
 ASSUMPTIONS = ['source IDs are non-blank (a blank *source* names nothing; only blank targets are in the stated domain)']
-MANDATORY = ['multi-source', 'blank-target', 'compact', 'pretty', 'inspect'] + \
+MANDATORY = ['multi-source', 'repeated-source-id', 'blank-target', 'compact', 'pretty', 'inspect'] + \
     [f'class:{k}' for k in sorted(set(B.TAG_CLASS.values()) | set(B.EA_KINDS))]
 
 # class -> (accessor yielding the addressed story, target accessor, sources accessor, payload accessor)
@@ -242,6 +242,8 @@ def rejudge(case):
 def classes_of(text):
     m = model.Msg(text)
     cl = [f'class:{m.kind}', 'inspect']
+    if len(set(m.source_ids())) != len(m.source_ids()):
+        cl.append('repeated-source-id')
     n = len(m.sources) + len(m.payload)
     if n >= 2:
         cl.append('multi-source')
@@ -283,6 +285,12 @@ def enum_messages():
             yield B.item_move_multiple(ro, 'S0', (iids[1:1 + n] or ['I1']) + ['I0' if t else ''])
         yield B.ea_story_insert(ro, None, stories(n), with_target=False)
         yield B.ea_story_move(ro, None, sids[:n], with_target=False)
+    # the same ID named twice: accessors expose what the message names, as it names it
+    yield B.story_delete(ro, ['S0', 'STORY1', 'S0'])
+    yield B.ea_story_delete(ro, ['S0', 'S0'])
+    yield B.item_delete(ro, 'S0', ['I0', 'ITEM1', 'I0'])
+    yield B.ea_item_delete(ro, 'S0', ['I0', 'I0', 'ITEM1'])
+    yield B.ea_story_move(ro, 'a&b', ['S0', 'STORY1', 'S0'])
     for t in ('S1', ''):
         yield B.story_move(ro, ['S0', t])
     yield B.story_move(ro, ['S0'])
